@@ -453,6 +453,57 @@ func c19SealDenied(t *testing.T, out *vh.Out) {
 	}
 }
 
+// c19SealDeniedNs: the same entry point with a token OF A CHILD NAMESPACE (created through c19sd/auth/token/create):
+// its entry lives in the child namespace's token store, so the revocation of the spent token has to run there.
+// Op line: sealdenied <n> ns => denied|token:<state>
+func c19SealDeniedNs(t *testing.T, out *vh.Out) {
+	for n := 1; n <= 2; n++ {
+		_, c, root, _ := c19Setup(t)
+		if cl, _ := vhReq(c, logical.UpdateOperation, "sys/namespaces/c19sd", root, nil); cl != "ok" {
+			t.Fatalf("namespace: %s", cl)
+		}
+		cl, resp := vhReq(c, logical.UpdateOperation, "c19sd/auth/token/create", root, map[string]any{"ttl": "1h", "policies": []string{"default"}, "num_uses": n})
+		if cl != "ok" || resp == nil || resp.Auth == nil {
+			t.Fatalf("token in child namespace: %s", cl)
+		}
+		tok := resp.Auth.ClientToken
+		out.Reset()
+		for i := 0; i < n-1; i++ {
+			if cl, _ := vhReq(c, logical.ReadOperation, "c19sd/auth/token/lookup-self", tok, nil); cl != "ok" {
+				t.Fatalf("c19 sealdenied ns set-up use %d: %s", i, cl)
+			}
+		}
+		req := &logical.Request{Operation: logical.UpdateOperation, Path: "sys/seal", ClientToken: tok}
+		req.SetTokenEntry(nil)
+		err := c.SealWithRequest(vhRootCtx(), req)
+		rcl := "ok"
+		switch {
+		case err != nil && strings.Contains(err.Error(), "permission denied"):
+			rcl = "denied"
+		case err != nil:
+			rcl = "err"
+		}
+		state := "sealed"
+		if !c.Sealed() {
+			state = "alive"
+			for i := 0; i < 300; i++ {
+				// root may look the token up by accessor-free lookup in the child namespace
+				if lcl, _ := vhReq(c, logical.UpdateOperation, "c19sd/auth/token/lookup", root, map[string]any{"token": tok}); lcl != "ok" {
+					state = "gone"
+					break
+				}
+				time.Sleep(5 * time.Millisecond)
+			}
+		}
+		viol := ""
+		if state == "alive" {
+			viol = "!VIOL:token of a child namespace not revoked after its last use (a denied sys/seal)#spent-ns-token-not-revoked-after-denied-seal"
+		}
+		out.Op(fmt.Sprintf("%s|token:%s%s", rcl, state, viol), "sealdenied", vh.I(int64(n)), "ns")
+		_ = c.Shutdown()
+	}
+}
+
 // c19NsLast: a token of the ROOT namespace whose policy reaches into a child namespace spends its last use on a request
 // into that child namespace (the n-1 uses before it in either namespace). The token (whose entry and lease live in the
 // root namespace) must be revoked all the same. Op line: nslast <n> <k> => <class of the last request>|token:<state>
@@ -504,6 +555,7 @@ func TestVerifC19(t *testing.T) {
 	defer out.Close()
 	rng := vh.NewRand(vh.Seed())
 	c19SealDenied(t, out)
+	c19SealDeniedNs(t, out)
 	c19NsLast(t, out)
 	cases := vh.EnvInt("VERIF_C19_CASES", 150)
 	if vh.Thorough() {
